@@ -633,6 +633,8 @@ pub enum KeyFn {
     BindOnValue,
     IgnoresInput,
     SharedNode,
+    /// decoder 2: bind on an outer variable that uses the per-key input in one arm only
+    BindOnOuter,
 }
 
 fn keyfn_expected(f: KeyFn, k: i32, v: i32, a: i32, b: i32) -> i32 {
@@ -648,6 +650,13 @@ fn keyfn_expected(f: KeyFn, k: i32, v: i32, a: i32, b: i32) -> i32 {
         }
         KeyFn::IgnoresInput => a + k,
         KeyFn::SharedNode => a + 100,
+        KeyFn::BindOnOuter => {
+            if a % 2 == 0 {
+                k * 10 + v
+            } else {
+                b
+            }
+        }
     }
 }
 fn filt(x: i32) -> Option<i32> {
@@ -695,6 +704,19 @@ fn per_key(f: KeyFn, o: &Rc<Outer>) -> impl FnMut(&i32, Incr<i32>) -> Incr<i32> 
                 a + k
             }),
             KeyFn::SharedNode => o.shared.clone(),
+            KeyFn::BindOnOuter => {
+                let (a, b) = (o.a.clone(), o.b.clone());
+                a.bind(move |av| {
+                    if av % 2 == 0 {
+                        inc.map(move |v| {
+                            call("perkey", k);
+                            k * 10 + v
+                        })
+                    } else {
+                        b.clone()
+                    }
+                })
+            }
         }
     }
 }
@@ -714,8 +736,14 @@ pub fn run_c16_case(bytes: &[u8], tier: Tier) -> Outcome {
     let mut ch = Choices::new(bytes);
     let ord = ch.flag(1, 2);
     let filter = ch.flag(1, 2);
-    let cutoff = ch.choose(3); // 0 none, 1 PartialEq, 2 Fn(eq)
-    let kf = [KeyFn::PureMap, KeyFn::Map2Outer, KeyFn::BindOnValue, KeyFn::IgnoresInput, KeyFn::SharedNode][ch.choose(5)];
+    let v2 = crate::choice::dv() >= 2;
+    // 0 none, 1 PartialEq, 2 Fn(eq); decoder 2: 3 = Fn(same parity), a cutoff coarser than equality
+    let cutoff = ch.choose(if v2 { 4 } else { 3 });
+    let kf = if v2 {
+        [KeyFn::PureMap, KeyFn::Map2Outer, KeyFn::BindOnValue, KeyFn::IgnoresInput, KeyFn::SharedNode, KeyFn::BindOnOuter][ch.choose(6)]
+    } else {
+        [KeyFn::PureMap, KeyFn::Map2Outer, KeyFn::BindOnValue, KeyFn::IgnoresInput, KeyFn::SharedNode][ch.choose(5)]
+    };
     let steps = if tier == Tier::Quick { 12 } else { 30 };
     let mut fails: Vec<Failure> = vec![];
     let mut trace = vec![format!(
@@ -748,7 +776,18 @@ pub fn run_c16_case(bytes: &[u8], tier: Tier) -> Outcome {
                 filt(a + 100)
             }),
         });
-        let cut = || if cutoff == 1 { Cutoff::PartialEq } else { Cutoff::Fn(|a: &i32, b: &i32| a == b) };
+        let cut = || match cutoff {
+            1 => Cutoff::PartialEq,
+            3 => Cutoff::Fn(|a: &i32, b: &i32| a.rem_euclid(2) == b.rem_euclid(2)),
+            _ => Cutoff::Fn(|a: &i32, b: &i32| a == b),
+        };
+        // With the parity cutoff each key's Incr<V> carries that cutoff: a change of the entry that
+        // keeps the parity is stored but not propagated. `seen[k]` is the value the dependants of
+        // the per-key input last consumed; it catches up when the entry's parity changes, and, for
+        // per-key functions that also read an outer variable, when that variable changes (they
+        // then recompute on the stored value).
+        let mut seen: BTreeMap<i32, i32> = BTreeMap::new();
+        let mut a_at_processed: Option<i32> = None;
         let vb_map = st.var(cur.clone());
         let vo_map = st.var(<OrdMap<i32, i32> as TM>::of(&cur));
         let observe: Box<dyn Fn() -> Reader> = match (ord, filter) {
@@ -852,9 +891,22 @@ pub fn run_c16_case(bytes: &[u8], tier: Tier) -> Outcome {
                 continue;
             };
             let got = rd();
+            let outer_a_changed = a_at_processed != Some(av);
+            for (k, v) in cur.iter() {
+                let catch_up = match processed.as_ref().and_then(|p| p.get(k)) {
+                    None => true,
+                    Some(old) => cutoff != 3 || old.rem_euclid(2) != v.rem_euclid(2),
+                } || (outer_a_changed && matches!(kf, KeyFn::Map2Outer | KeyFn::BindOnOuter));
+                if catch_up {
+                    seen.insert(*k, *v);
+                }
+            }
+            seen.retain(|k, _| cur.contains_key(k));
+            a_at_processed = Some(av);
             let want: BT = cur
                 .iter()
-                .filter_map(|(k, v)| {
+                .filter_map(|(k, _)| {
+                    let v = &seen[k];
                     let x = keyfn_expected(kf, *k, *v, av, bv);
                     if filter {
                         filt(x).map(|x| (*k, x))
@@ -925,7 +977,9 @@ pub fn run_c16_case(bytes: &[u8], tier: Tier) -> Outcome {
             KeyFn::BindOnValue => "fn_bind_on_value",
             KeyFn::IgnoresInput => "fn_ignores_input",
             KeyFn::SharedNode => "fn_shared_node",
+            KeyFn::BindOnOuter => "fn_bind_on_outer_var",
         }, 1),
+        (if cutoff == 3 { "cutoff_coarser_than_equality" } else { "cutoff_equality_or_none" }, 1),
         (if ord { "type_OrdMap" } else { "type_BTreeMap" }, 1),
         (if filter { "op_incr_filter_mapi_" } else { "op_incr_mapi_" }, 1),
     ];
